@@ -33,6 +33,7 @@ type cWorld struct {
 	lp, ll        boltz.LinkCollection
 	qB, qA        ast.Query
 	qDot          ast.Query
+	qDotFk        ast.Query
 	qBplain       ast.Query
 	qAplain       ast.Query
 	lite          bool // fewer scheduling points inside readTuple (no in-scan yields)
@@ -42,9 +43,10 @@ func newCWorld() *cWorld {
 	w := &cWorld{}
 	w.places = world.NewStore(&world.Spec{EntityType: "places", BasePath: []string{"root"}, Fields: []world.Field{{Name: "label", Kind: world.KString}}})
 	w.items = world.NewStore(&world.Spec{EntityType: "items", BasePath: []string{"root"}, Fields: []world.Field{
-		{Name: "name", Kind: world.KString}, {Name: "roles", Kind: world.KStringList}, {Name: "ver", Kind: world.KInt64P}, {Name: "tags", Kind: world.KMap}}})
+		{Name: "name", Kind: world.KString}, {Name: "roles", Kind: world.KStringList}, {Name: "ver", Kind: world.KInt64P}, {Name: "tags", Kind: world.KMap}, {Name: "peer", Kind: world.KStringP}}})
 	w.places.AddScalarSymbols()
 	w.items.AddMapSymbol("tags", ast.NodeTypeAnyType, "tags")
+	w.items.AddFkSymbol("peer", w.items) // a single-valued first hop in front of a set: peer.places.*
 	w.items.MakeSymbolPublic("tags")
 	w.items.MakeSymbolPublic("name")
 	w.items.AddIdSymbol("id", ast.NodeTypeString)
@@ -69,6 +71,9 @@ func newCWorld() *cWorld {
 	if w.qDot, err = ast.Parse(w.items, `anyOf(places.ptag) = "l2" or allOf(places.label) = "zz"`); err != nil {
 		panic(err)
 	}
+	if w.qDotFk, err = ast.Parse(w.items, `anyOf(peer.places.ptag) = "l2" or allOf(peer.places.label) = "zz"`); err != nil {
+		panic(err)
+	}
 	if w.qB, err = ast.Parse(w.items, `hook and anyOf(roles) = "b"`); err != nil {
 		panic(err)
 	}
@@ -85,7 +90,8 @@ func newCWorld() *cWorld {
 }
 
 func (w *cWorld) item(id, name string, roles []string, ver int64) *world.Rec {
-	return world.NewRec("items", id).With("name", name).With("roles", roles).With("ver", ver).With("tags", map[string]interface{}{"k": "a", "j": int64(5)})
+	peer := map[string]interface{}{"i1": "i2", "i2": "i1", "i3": "i1"}[id] // nil for every other id
+	return world.NewRec("items", id).With("name", name).With("roles", roles).With("ver", ver).With("tags", map[string]interface{}{"k": "a", "j": int64(5)}).With("peer", peer)
 }
 
 // buildBase creates the base database file (pre-grown so that later small commits never remap).
@@ -369,7 +375,9 @@ func C18(tier string) int {
 		}
 		dotRead := func(tx *bbolt.Tx) string {
 			ids, count, err := w.items.QueryIdsC(tx, w.qDot)
-			return fmt.Sprintf("%v/%d/%v", ids, count, err)
+			// a composite whose first hop is single-valued (fk), then a set: parsed per call, as an application would
+			ids2, count2, err2 := w.items.QueryIds(tx, `anyOf(peer.places.ptag) = "l2" or allOf(peer.places.label) = "zz"`)
+			return fmt.Sprintf("%v/%d/%v;%v/%d/%v", ids, count, err, ids2, count2, err2)
 		}
 		var want string
 		_ = ddb.View(func(tx *bbolt.Tx) error { want = dotRead(tx); return nil })
